@@ -778,6 +778,37 @@ Proof.
   specialize (H p Hp Hm). unfold term_time in H. lia.
 Qed.
 
+(* Terminating Nodes count: a rolling failure (one unhealthy Node already terminating, the next one
+   past its toleration, 2 of 5 unhealthy) must stay blocked. Leaving terminating Nodes out breaks it. *)
+Definition rolling_sick : list ncond := [mkCond "BadNode" "False" 0].
+Definition rolling_fine : list ncond := [mkCond "BadNode" "True" 0].
+Definition rolling_failure : rp_in :=
+  mkRp "id1" rolling_sick [mkRClaim "id1" (Some "pool"%string) false AnnNone] AOk
+       [mkPolicy "BadNode" "False" (1800 * sec)] (1800 * sec)
+       [mkRNode (Some "pool"%string) true rolling_sick;     (* node0: unhealthy, already Terminating *)
+        mkRNode (Some "pool"%string) false rolling_sick;    (* node1: the reconciled one *)
+        mkRNode (Some "pool"%string) false rolling_fine; mkRNode (Some "pool"%string) false rolling_fine;
+        mkRNode (Some "pool"%string) false rolling_fine]
+       AOk AOk AOk AOk.
+
+Lemma repair_skip_terminating_refuted_l :
+  exists i, (0 < snd (fst (repair_skip_terminating i)))%nat /\ ~ rp_holds i (snd (fst (repair_skip_terminating i))) /\
+            snd (fst (repair i)) = O.
+Proof.
+  exists rolling_failure. split; [vm_compute; lia|]. split; [|vm_compute; reflexivity].
+  intros H. apply rp_holds_b_iff in H. vm_compute in H. discriminate.
+Qed.
+
+Lemma repair_skip_terminating_partial_l i :
+  (forall n, In n (r_nodes i) -> rn_deleting n = false) -> repair_skip_terminating i = repair i.
+Proof.
+  intros H. unfold repair_skip_terminating.
+  assert (Hf : filter (fun n => negb (rn_deleting n)) (r_nodes i) = r_nodes i).
+  { induction (r_nodes i) as [|n ns IH]; [reflexivity|]. simpl.
+    rewrite (H n (or_introl eq_refl)). simpl. f_equal. apply IH. intros m Hm. apply H. right. exact Hm. }
+  rewrite Hf. destruct i; reflexivity.
+Qed.
+
 (* ------------------------------------------------------------------ histories *)
 
 (* A history is any sequence of reconciles of any of the four reapers, each with its own
